@@ -7,7 +7,9 @@ from . import events_common as EC
 PROPERTY = "C09"
 LEVEL = "other"
 EXPLANATION = (
-    "The REAL event section of OdeSystem.integrate (roll-back of the step, re-integration to the root, status, buffer handling, dense output) runs with t0, tf, dt0 symbolic, "
+    "(A) The REAL handle_events on a symbolic step with two or three events, at least one terminal (bracket_root stub, both 'arbitrary' and 'exact' mode): only events up to and "
+    "including the first terminal one along the direction of integration are returned, in integration order, terminate is set exactly then, and the list ends at the EARLIEST "
+    "located terminal crossing.  (B) The REAL event section of OdeSystem.integrate (roll-back of the step, re-integration to the root, status, buffer handling, dense output) runs with t0, tf, dt0 symbolic, "
     "both directions, finite and infinite tf, mixes of terminal and non-terminal events, and handle_events replaced by an oracle constrained only by the guarantee C07(A) proves "
     "of the real handle_events (list cut after the first terminal event, terminate flag).  z3 decides on every feasible path: the last recorded time equals the terminal root, "
     "nothing beyond it is kept, rows strictly monotone, the last reported event is the terminal one, no detector call after it, status 'terminated by event' = success, callbacks "
@@ -20,10 +22,13 @@ OUTSIDE = ["'last state on the event surface' as g(t_e, y_e) ~ 0 needs the root 
 
 
 def instances(tier):
-    return C7.integrate_instances(tier, "C09")
+    hs = [i for i in C7.handle_instances(tier, "C09") if any(i["terms"]) and i["E"] >= 2]
+    return hs + C7.integrate_instances(tier, "C09")
 
 
 def scenario(c, inst):
+    if inst["kind"] == "handle":
+        return C7.handle_scenario(c, inst, {"C09"})
     if inst["kind"] == "e2e":
         return EC.scenario_e2e(c, inst, {"C09"})
     return EC.scenario(c, inst, {"C09"})
